@@ -672,6 +672,8 @@ static int ec_insert(char *loc, char *cmd, char *arg, char *txt)
 	n = lbuf_len(xb);
 	lbuf_edit(xb, txt, beg, end);
 	xrow = MIN(lbuf_len(xb) - 1, end + lbuf_len(xb) - n - 1);
+	if (!lbuf_len(xb))	/* as in a fresh empty buffer */
+		xrow = 0;
 	return 0;
 }
 
